@@ -1238,6 +1238,9 @@ def _used_as_value(facts, key):
     return False
 
 
+FINITE_COLLECTIONS = re.compile(r"^(std::vec::Vec|\[.*\]|std::collections::(BTreeMap|BTreeSet|VecDeque|HashMap|HashSet|BinaryHeap|LinkedList)|std::option::Option|std::result::Result|serde_json::Map|std::string::String)$")
+
+
 def iter_type_finite(facts, body, ty, depth=0):
     """Why a value of this type is a finite iterator, or None."""
     if depth > 8:
@@ -1254,6 +1257,17 @@ def iter_type_finite(facts, body, ty, depth=0):
     if FINITE_IF_ALL.match(head) and args:
         ws = [iter_type_finite(facts, body, a, depth + 1) for a in args[:2]]
         return "%s of %s" % (head.rsplit("::", 1)[-1], " and ".join(ws)) if all(ws) else None
+    # the iterator a collection hands out: `<I as IntoIterator>::IntoIter` is finite when I is — a finite iterator is its
+    # own IntoIter, a (reference to a) std collection held in memory iterates over its elements
+    mproj = re.match(r"^<(.+) as std::iter::IntoIterator>::IntoIter$", ty)
+    if mproj:
+        inner = mproj.group(1).strip()
+        w = iter_type_finite(facts, body, inner, depth + 1)
+        return "IntoIter of %s" % w if w else None
+    bare = re.sub(r"^&\s*('\w+\s+)?(mut\s+)?", "", ty)
+    hb, _ab = split_type(bare)
+    if FINITE_COLLECTIONS.match(hb):
+        return "the elements of a %s" % hb.rsplit("::", 1)[-1]
     # a type parameter of the function (or `impl Iterator` in argument position): the types handed in at every call site
     root = body
     while root.kind == "closure":
